@@ -223,7 +223,7 @@ func (g *c18Gen) generate(thorough bool, n int) {
 	}
 	for _, mp := range [][2]string{{"PATCH", "/v2/collections"}, {"PUT", "/v2/collections"}, {"DELETE", "/v2/collections"}, {"POST", "/v2/collections/rich"}, {"PUT", "/v2/collections/rich"},
 		{"GET", "/v2/collections/rich/points"}, {"PATCH", "/v2/collections/rich/points"}, {"GET", "/v2/collections/rich/points/search"}, {"DELETE", "/v2/collections/rich/points/search"},
-		{"POST", "/v2/collections/rich/points/search/more"}, {"GET", "/v3/collections"}, {"GET", "/v2/unknown"}, {"GET", "/"}, {"GET", "/v2"}, {"POST", "/v1/collections/vcol"},
+		{"POST", "/v2/collections/rich/points/search/more"}, {"GET", "/v3/collections"}, {"GET", "/v2/unknown"}, {"GET", "/"}, {"POST", "/v1/collections/vcol"},
 		{"GET", "/v1/collections/vcol/points"}, {"HEAD", "/v2/collections"}, {"OPTIONS", "/v2/collections"}, {"POST", "/v2/ping"}, {"DELETE", "/v1/ping"}} {
 		u := "alice"
 		if strings.HasPrefix(mp[1], "/v1") {
@@ -270,9 +270,14 @@ func (g *c18Gen) generate(thorough bool, n int) {
 		{"POST", "/v1/collections/rich/points", `{"points":[{"vector":[]}]}`}, {"POST", "/v1/collections/rich/points/search", `{"vector":[1],"limit":76}`}} {
 		g.add(spec("defect:v1-on-v2-collection:"+d[0]+" "+d[1], "valid", d[0], d[1], "alice", ctJ, []byte(d[2])))
 	}
-	g.add(spec("defect:pq-unbuildable:search", "valid", "POST", "/v2/collections/pqbad/points/search", "alice", ctJ,
-		[]byte(`{"query":{"property":"vec","vectorFlat":{"vector":[1,2,3,4,5],"operator":"near","limit":3}},"limit":3}`)))
-	g.add(spec("defect:pq-unbuildable:insert", "valid", "POST", "/v2/collections/pqbad/points", "alice", ctJ, []byte(`{"points":[{"vec":[1,2,3,4,5]}]}`)))
+	pqIns := spec("defect:pq-unbuildable:insert", "valid", "POST", "/v2/collections/pqbad/points", "alice", ctJ, []byte(`{"points":[{"vec":[1,2,3,4,5]}]}`))
+	g.add(pqIns)
+	pqSearch := spec("defect:pq-unbuildable:search", "valid", "POST", "/v2/collections/pqbad/points/search", "alice", ctJ,
+		[]byte(`{"query":{"property":"vec","vectorFlat":{"vector":[1,2,3,4,5],"operator":"near","limit":3}},"limit":3}`))
+	pqSetup := pqIns
+	pqSetup.Tag = "setup"
+	pqSearch.Setup = []xspec{pqSetup} // the first insert creates the shard (and fails); the search then needs the index
+	g.add(pqSearch)
 	for _, sel := range []string{`["size.b"]`, `["labels.x"]`, `["labels","labels.0"]`, `["extra.k.z"]`, `["cat","cat.x"]`, `["arr.1"]`, `["labels.0"]`, `["nested","nested.n"]`, `[""]`, `["nosuch.a","nosuch"]`, `["arr.*"]`} {
 		g.add(spec("defect:select-through-scalar:"+sel, "valid", "POST", "/v2/collections/rich/points/search", "alice", ctJ,
 			[]byte(`{"query":{"property":"size","integer":{"value":3,"operator":"lessThan"}},"select":`+sel+`,"limit":10}`)))
@@ -323,7 +328,7 @@ func (g *c18Gen) generate(thorough bool, n int) {
 	g.add(spec("invalid:json-nesting-20000", "mutated", "POST", "/v2/collections/plain/points", "alice", ctJ,
 		[]byte(`{"points":[{"x":`+strings.Repeat("[", 20000)+strings.Repeat("]", 20000)+`}]}`)))
 	// ---- (b) structured mutation of every node of every base request
-	budget := 260
+	budget := 520
 	if thorough {
 		budget = 0
 	}
@@ -354,9 +359,9 @@ func (g *c18Gen) generate(thorough bool, n int) {
 		}
 	}
 	// ---- (c) raw and byte-mutated bodies per endpoint
-	nraw := 24
+	nraw := 60
 	if thorough {
-		nraw = 400
+		nraw = 1500
 	}
 	for _, b := range bases {
 		j, m := b.body.JSON(), b.body.Msgpack()
@@ -508,7 +513,7 @@ func runC18(rc *runCtx) error {
 		}(b)
 	}
 	wg.Wait()
-	nfiles := 6
+	nfiles := 10
 	if rc.thorough() {
 		nfiles = 14
 	}
@@ -519,7 +524,7 @@ func runC18(rc *runCtx) error {
 		if err != nil {
 			return err
 		}
-		fmt.Fprintln(cf.w, "From Coq Require Import String.\nOpen Scope string_scope.\nOpen Scope Z_scope.")
+		fmt.Fprintln(cf.w, "From Coq Require Import String.\nOpen Scope string_scope.")
 		cfs[i], auxNames[i] = cf, map[string]string{}
 	}
 	hist := map[string]int{}
